@@ -24,7 +24,7 @@ THOROUGH = {
                                     "restart": 3, "create": 3, "delete": 3, "rename": 3, "status": 4, "store": 8,
                                     "fetch": 2, "fetchbody": 1, "search": 0, "idle": 1, "done": 1},
                 world=dict(pack_limit=3, pack_ratio=0.75)),
-    "tlc_timeout": 3000,
+    "tlc_timeout": 1500,
    }
 
 def apalache(ck):
